@@ -596,9 +596,681 @@ Proof.
   rewrite H1 in H. inversion H. split; reflexivity.
 Qed.
 
+(* ====================================================================== *)
+(* Part 2: C17 - the state after an accepted document                     *)
+(* ====================================================================== *)
+
+Lemma ustate_eta : forall c t s, u_t c = t -> u_s c = s -> c = mku t s.
+Proof. intros [t0 s0] t s H1 H2. cbn in *. subst. reflexivity. Qed.
+
+Lemma nil_not : forall e, unil e = false -> e = unilE -> False.
+Proof. intros e H ->. discriminate H. Qed.
+
+(* finalize returns nil only at the top level, in the start state *)
+Lemma ufinalize_top : forall fuel p s p' s',
+  ufinalize fuel p s = (p', s', unilE) ->
+  up_stack p' = [] /\ up_cur p' = mku tNext sStart.
+Proof.
+  induction fuel as [|f IH]; intros p s p' s' H; cbn [ufinalize] in H.
+  - inversion H.
+  - destruct (zlen (up_stack p) >? 0) eqn:Es.
+    + destruct ((u_t (up_cur p) =? tArrayCount) || (u_t (up_cur p) =? tArrayTyped)).
+      * destruct (_ || _); [inversion H|].
+        destruct (uvis s EArrEnd) as [s1 e]. destruct (unil e) eqn:Ee; [eapply IH; eauto|].
+        inversion H; subst. exfalso. eapply nil_not; eauto.
+      * destruct ((u_t (up_cur p) =? tObjectCount) || (u_t (up_cur p) =? tObjectTyped)); [|inversion H].
+        destruct (_ || _); [inversion H|].
+        destruct (uvis s EObjEnd) as [s1 e]. destruct (unil e) eqn:Ee; [eapply IH; eauto|].
+        inversion H; subst. exfalso. eapply nil_not; eauto.
+    + destruct (negb (u_s (up_cur p) =? sStart) || negb (u_t (up_cur p) =? tNext)) eqn:Ec; [inversion H|].
+      inversion H; subst. apply orb_false_iff in Ec. destruct Ec as [E1 E2].
+      apply negb_false_iff, Z.eqb_eq in E1. apply negb_false_iff, Z.eqb_eq in E2.
+      split; [|apply ustate_eta; assumption].
+      destruct (up_stack p') as [|c l]; [reflexivity|]. unfold zlen in Es. cbn [length] in Es. lia.
+Qed.
+
+Lemma Inv_top_clean : forall p, Inv p -> u_t (up_cur p) = tNext -> clean p.
+Proof.
+  intros p [_ [Hf|Hg]] Ht; [rewrite Ht in Hf; discriminate|].
+  apply good_clean; [exact Hg| |]; unfold count_of, lenst; rewrite Ht; reflexivity.
+Qed.
+
+Lemma ufinalize_inv : forall fuel p s p' s',
+  Inv p -> ufinalize fuel p s = (p', s', unilE) -> Inv p' /\ clean p'.
+Proof.
+  induction fuel as [|f IH]; intros p s p' s' HI H; cbn [ufinalize] in H.
+  - inversion H.
+  - destruct (zlen (up_stack p) >? 0) eqn:Es.
+    + assert (Hpop : forall T S, u_t (up_cur p) = T -> u_s (up_cur p) = S -> up_lcur p = 0 ->
+                (T = tArrayCount \/ T = tArrayTyped) /\ S = sCont \/
+                (T = tObjectCount \/ T = tObjectTyped) /\ S = sFieldName ->
+                Inv (fst (upop_len_state p))).
+      { intros T S HT HS HL HK. destruct HI as [He [Hf|Hg]].
+        { rewrite HT in Hf. destruct HK as [[[->| ->] _]|[[->| ->] _]]; discriminate. }
+        destruct (upop_len_state p) as [p1 d] eqn:Ep. cbn [fst].
+        assert (Hm : mid (up_cur p)).
+        { split; rewrite HT; destruct HK as [[[->| ->] _]|[[->| ->] _]]; discriminate. }
+        assert (Hc : clean p).
+        { apply good_clean; [exact Hg| |]; unfold count_of, lenst; rewrite HT, HS, HL;
+            destruct HK as [[[->| ->] ->]|[[->| ->] ->]]; reflexivity. }
+        destruct Hg as (Hb & _). exact (proj1 (upop_len_state_post p p1 d He Hb Hm Hc Ep)). }
+      destruct ((u_t (up_cur p) =? tArrayCount) || (u_t (up_cur p) =? tArrayTyped)) eqn:Ea.
+      * destruct (negb (up_lcur p =? 0) || negb (u_s (up_cur p) =? sCont)) eqn:Ec; [inversion H|].
+        apply orb_false_iff in Ec. destruct Ec as [E1 E2].
+        apply negb_false_iff, Z.eqb_eq in E1. apply negb_false_iff, Z.eqb_eq in E2.
+        destruct (uvis s EArrEnd) as [s1 e]. destruct (unil e) eqn:Ee.
+        -- eapply IH; [|exact H]. apply (Hpop _ _ eq_refl E2 E1). left. split; [|reflexivity].
+           apply orb_true_iff in Ea. destruct Ea as [Ea|Ea]; apply Z.eqb_eq in Ea; auto.
+        -- inversion H; subst. exfalso. eapply nil_not; eauto.
+      * destruct ((u_t (up_cur p) =? tObjectCount) || (u_t (up_cur p) =? tObjectTyped)) eqn:Eo; [|inversion H].
+        destruct (negb (up_lcur p =? 0) || negb (u_s (up_cur p) =? sFieldName)) eqn:Ec; [inversion H|].
+        apply orb_false_iff in Ec. destruct Ec as [E1 E2].
+        apply negb_false_iff, Z.eqb_eq in E1. apply negb_false_iff, Z.eqb_eq in E2.
+        destruct (uvis s EObjEnd) as [s1 e]. destruct (unil e) eqn:Ee.
+        -- eapply IH; [|exact H]. apply (Hpop _ _ eq_refl E2 E1). right. split; [|reflexivity].
+           apply orb_true_iff in Eo. destruct Eo as [Eo|Eo]; apply Z.eqb_eq in Eo; auto.
+        -- inversion H; subst. exfalso. eapply nil_not; eauto.
+    + destruct (negb (u_s (up_cur p) =? sStart) || negb (u_t (up_cur p) =? tNext)) eqn:Ec; [inversion H|].
+      inversion H; subst. apply orb_false_iff in Ec. destruct Ec as [E1 E2].
+      apply negb_false_iff, Z.eqb_eq in E2.
+      split; [exact HI|apply Inv_top_clean; assumption].
+Qed.
+
+(* what the parser is between two documents *)
+Definition top (p : uparser) : Prop :=
+  up_cur p = mku tNext sStart /\ up_stack p = [] /\ up_buf p = [] /\ up_marker p = 0 /\ up_err p = 0.
+
+Lemma top0 : top uparser0.
+Proof. unfold top, uparser0. cbn. auto. Qed.
+
+Lemma ufin_top : forall p s p' s', Inv p -> ufin p s = (p', s', unilE) -> top p' /\ Inv p'.
+Proof.
+  intros p s p' s' HI H. unfold ufin in H.
+  destruct (ufinalize_top _ _ _ _ _ H) as [A B].
+  destruct (ufinalize_inv _ _ _ _ _ HI H) as [C [D1 D2]].
+  split; [|exact C]. unfold top. destruct C as [C _]. auto.
+Qed.
+
+(* C17 (Parse): after an accepted input the state stack is empty, the parser is in
+   its start state (stNext, stStart), nothing is buffered, no error is latched *)
+Theorem C17_ubj_parse_top : forall p s b p' s',
+  Inv p -> up_parse p s b = Ok (p', s', unilE) -> top p' /\ Inv p'.
+Proof.
+  intros p s b p' s' HI H. unfold up_parse in H.
+  destruct (ufeed (2 * length b + 2) p s b) as [[[p1 s1] e1]| | |] eqn:E; try discriminate.
+  destruct (unil e1) eqn:Ee.
+  - apply unil_true' in Ee. subst e1. apply feed_sound in E.
+    pose proof (Feed_inv _ _ _ _ _ E HI) as HI1.
+    inversion H as [H0]. eapply ufin_top; eauto.
+  - inversion H; subst. discriminate Ee.
+Qed.
+
+(* the top-level state alone needs no hypothesis at all *)
+Theorem C17_ubj_parse_top_any : forall p s b p' s',
+  up_parse p s b = Ok (p', s', unilE) -> up_stack p' = [] /\ up_cur p' = mku tNext sStart.
+Proof.
+  intros p s b p' s' H. unfold up_parse in H.
+  destruct (ufeed (2 * length b + 2) p s b) as [[[p1 s1] e1]| | |] eqn:E; try discriminate.
+  destruct (unil e1) eqn:Ee.
+  - inversion H as [H0]. unfold ufin in H0. eapply ufinalize_top; eauto.
+  - inversion H; subst. discriminate Ee.
+Qed.
+
+Lemma up_write_inv : forall p s c p1 s1, Inv p -> up_write p s c = Ok (p1, s1, unilE) -> Inv p1.
+Proof.
+  intros p s c p1 s1 HI H. destruct (up_write_Ok _ _ _ _ _ _ H) as (p1' & F & E).
+  rewrite unil_nil in E. pose proof (Feed_inv _ _ _ _ _ F HI) as HI1.
+  rewrite set_err_same in E by apply HI1. subst. exact HI1.
+Qed.
+
+Theorem C17_ubj_writes_top : forall chunks p s p' s',
+  Inv p -> up_writes p s chunks = Ok (p', s', unilE) -> top p' /\ Inv p'.
+Proof.
+  induction chunks as [|c r IH]; intros p s p' s' HI H; cbn [up_writes] in H.
+  - inversion H as [H0]. eapply ufin_top; eauto.
+  - destruct (up_write p s c) as [[[p1 s1] err]| | |] eqn:Hw; try discriminate.
+    destruct (unil err) eqn:Ee.
+    + apply unil_true' in Ee. subst err. eapply IH; [|exact H]. eapply up_write_inv; eauto.
+    + inversion H; subst. discriminate Ee.
+Qed.
+
+Theorem C17_ubj_run_parse_top : forall vfail b evs p,
+  urun_parse vfail b = Ok (evs, unilE, p) -> top p.
+Proof.
+  intros vfail b evs p H. unfold urun_parse in H.
+  destruct (up_parse uparser0 (sink0 vfail) b) as [[[p' s'] e']| | |] eqn:E; try discriminate.
+  inversion H; subst. exact (proj1 (C17_ubj_parse_top _ _ _ _ _ Inv0 E)).
+Qed.
+
+Theorem C17_ubj_run_chunks_top : forall vfail chunks evs p,
+  urun_chunks vfail chunks = Ok (evs, unilE, p) -> top p.
+Proof.
+  intros vfail chunks evs p H. unfold urun_chunks in H.
+  destruct (up_writes uparser0 (sink0 vfail) chunks) as [[[p' s'] e']| | |] eqn:E; try discriminate.
+  inversion H; subst. exact (proj1 (C17_ubj_writes_top _ _ _ _ _ Inv0 E)).
+Qed.
+
+(* ---------------------------------------------------------------------- *)
+(* C17 for documents the reference decoder accepts (via the simulation of *)
+(* ConformanceProofs.v, cf. C06_scope): all three stacks - states,        *)
+(* valueStates, lengths - are empty again and every field except the      *)
+(* dead up_vtype has its initial value.                                   *)
+(* ---------------------------------------------------------------------- *)
+From SF Require Ubjson.ConformanceProofs.
+Module CP := SF.Ubjson.ConformanceProofs.
+
+Theorem C17_ubj_accept_reset : forall b v, all_bytes b = true ->
+  CP.no_huge_zero_typed b = true ->
+  ubj_decode b = RValue v [] ->
+  exists evs vt, urun_parse None b = Ok (evs, unilE, CP.uset_vtype uparser0 vt).
+Proof.
+  intros b v Hb Hz H. unfold ubj_decode in H. unfold CP.no_huge_zero_typed in Hz.
+  destruct (CP.top_value _ b v [] H Hb (sink0 None) eq_refl) as (t & n & vt & Hwf & Hcv & Hbud & _ & Hreach).
+  change (zlen (@nil Z)) with 0 in Hbud. rewrite CP.ztc_nil in Hbud.
+  assert (Hne : b <> []) by (intros ->; discriminate H).
+  exists (flatten t), vt.
+  unfold urun_parse, up_parse.
+  replace (2 * length b + 2)%nat with (S (S (2 * length b))) by lia.
+  rewrite CP.ufeed_S. destruct (zlen b >? 0) eqn:Ez; [|pose proof (CP.nonempty_pos b Hne); lia].
+  set (F := ufeed_fuel uparser0 b).
+  assert (HF : (n + 1 <= F)%nat).
+  { unfold F, ufeed_fuel. change (length (up_stack uparser0)) with 0%nat.
+    assert (HK : Z.of_nat 8000 = 8000) by (vm_compute; reflexivity).
+    unfold zlen in *. lia. }
+  replace F with (S (n + (F - S n)))%nat by lia.
+  rewrite CP.ufeed_until_S, Hreach. cbn [CP.ufu_cont orb]. rewrite CP.unil_nil.
+  rewrite CP.ufeed_S. change (zlen (@nil Z) >? 0) with false. cbv iota. rewrite CP.unil_nil.
+  change (ufin (CP.uset_vtype uparser0 vt) (CP.sadd (sink0 None) (flatten t)))
+    with (CP.uset_vtype uparser0 vt, CP.sadd (sink0 None) (flatten t), unilE).
+  cbv beta iota. rewrite CP.sadd_log. reflexivity.
+Qed.
+
+Corollary C17_ubj_accept_stacks : forall b v, all_bytes b = true ->
+  CP.no_huge_zero_typed b = true -> ubj_decode b = RValue v [] ->
+  exists evs p, urun_parse None b = Ok (evs, unilE, p) /\
+    up_cur p = mku tNext sStart /\ up_stack p = [] /\
+    up_vcur p = mku tFail sStart /\ up_vstack p = [] /\
+    up_lcur p = 0 /\ up_lstack p = [] /\
+    up_buf p = [] /\ up_marker p = 0 /\ up_err p = 0.
+Proof.
+  intros b v Hb Hz H. destruct (C17_ubj_accept_reset b v Hb Hz H) as (evs & vt & E).
+  exists evs, (CP.uset_vtype uparser0 vt). split; [exact E|]. cbn. repeat split.
+Qed.
+
+(* ====================================================================== *)
+(* Part 3: C18 - the pull decoder                                         *)
+(* ====================================================================== *)
+
+(* ---------- Next, unfolded once ---------- *)
+Definition udec_body (f : nat) (d1 : udecoder) (s0 : sink) : res (udecoder * sink * Z) :=
+  match ufeed_until (ufeed_fuel (ud_p d1) (ud_buf d1)) (ud_p d1) s0 (ud_buf d1) with
+  | Ok (UR p1 s1 rest done err) =>
+      let d2 := {| ud_p := p1; ud_buf := rest; ud_script := ud_script d1; ud_bytesdec := ud_bytesdec d1 |} in
+      if negb (unil err) then Ok ({| ud_p := p1; ud_buf := ud_buf d1; ud_script := ud_script d1; ud_bytesdec := ud_bytesdec d1 |}, s1, err)
+      else if done then Ok (d2, s1, unilE)
+      else udec_next f d2 s1
+  | Ok (UCrash w) => Panic w
+  | Err e => Err e | Panic w => Panic w | OutOfFuel => OutOfFuel
+  end.
+
+(* Decoder.finalize at the end of the input; [sc] is the script that remains *)
+Definition udec_fin (d : udecoder) (sc : list (bytes * Z)) (s : sink) : udecoder * sink * Z :=
+  let '(p1, s1, e) := ufin (ud_p d) s in
+  ({| ud_p := p1; ud_buf := []; ud_script := sc; ud_bytesdec := ud_bytesdec d |}, s1, if unil e then ueEOF else e).
+
+Inductive ufill_res :=
+| UFbody (d1 : udecoder)                 (* go on with d1 (its buffer may be empty: read again) *)
+| UFfin (sc : list (bytes * Z))          (* end of input *)
+| UFerr (d1 : udecoder) (e : Z).         (* the reader failed *)
+
+Definition udec_fill (d : udecoder) : ufill_res :=
+  if zlen (ud_buf d) =? 0 then
+    if ud_bytesdec d then UFfin (ud_script d)
+    else match ud_script d with
+         | [] => UFfin []
+         | (data, err) :: rest =>
+             let d1 := {| ud_p := ud_p d; ud_buf := data; ud_script := rest; ud_bytesdec := false |} in
+             if (zlen data =? 0) && negb (err =? 0) then (if err =? ueEOF then UFfin rest else UFerr d1 err)
+             else UFbody d1
+         end
+  else UFbody d.
+
+Lemma udec_next_S : forall f d s,
+  udec_next (S f) d s =
+  match udec_fill d with
+  | UFbody d1 => if zlen (ud_buf d1) =? 0 then udec_next f d1 s else udec_body f d1 s
+  | UFfin sc => Ok (udec_fin d sc s)
+  | UFerr d1 e => Ok (d1, s, e)
+  end.
+Proof.
+  intros f d s. cbn [udec_next]. unfold udec_fill, udec_body, udec_fin.
+  destruct (zlen (ud_buf d) =? 0); [|reflexivity].
+  destruct (ud_bytesdec d) eqn:Eb.
+  { destruct (ufin (ud_p d) s) as [[p1 s1] e]. reflexivity. }
+  destruct (ud_script d) as [|[data err] rest].
+  { destruct (ufin (ud_p d) s) as [[p1 s1] e]. reflexivity. }
+  cbv zeta. destruct ((zlen data =? 0) && negb (err =? 0)); [|reflexivity].
+  destruct (err =? ueEOF); [|reflexivity].
+  destruct (ufin (ud_p d) s) as [[p1 s1] e]. reflexivity.
+Qed.
+
+(* everything the decoder will still see *)
+Definition utailb (d : udecoder) : bytes :=
+  if ud_bytesdec d then [] else concat (map fst (ud_script d)).
+Definition urem (d : udecoder) : bytes := ud_buf d ++ utailb d.
+
+Fixpoint uscript_okb (sc : list (bytes * Z)) : bool :=
+  match sc with
+  | [] => true
+  | (data, err) :: r =>
+      match r with
+      | [] => (err =? 0) || (err =? ueEOF)
+      | _ :: _ => (err =? 0) && uscript_okb r
+      end
+  end.
+
+Lemma uscript_okb_tail : forall x r, uscript_okb (x :: r) = true -> uscript_okb r = true.
+Proof.
+  intros [data err] r H. destruct r as [|y r]; [reflexivity|].
+  cbn [uscript_okb] in H. apply andb_true_iff in H. destruct H as [_ H]. exact H.
+Qed.
+
+Lemma uscript_okb_head : forall data err r, uscript_okb ((data, err) :: r) = true ->
+  err = 0 \/ (err = ueEOF /\ r = []).
+Proof.
+  intros data err r H. cbn [uscript_okb] in H. destruct r as [|y r].
+  - apply orb_true_iff in H. destruct H as [H|H]; apply Z.eqb_eq in H; auto.
+  - apply andb_true_iff in H. destruct H as [H _]. apply Z.eqb_eq in H. auto.
+Qed.
+
+Lemma udec_fill_spec : forall d, uscript_okb (ud_script d) = true ->
+  match udec_fill d with
+  | UFbody d1 => ud_p d1 = ud_p d /\ urem d1 = urem d /\ uscript_okb (ud_script d1) = true /\
+                 (length (ud_script d1) < length (ud_script d) \/ (d1 = d /\ ud_buf d <> []))%nat
+  | UFfin sc => urem d = [] /\ uscript_okb sc = true
+  | UFerr _ _ => False
+  end.
+Proof.
+  intros d H. unfold udec_fill.
+  destruct (zlen (ud_buf d) =? 0) eqn:Eb.
+  2:{ split; [reflexivity|]. split; [reflexivity|]. split; [exact H|]. right. split; [reflexivity|].
+      intros E. rewrite E in Eb. discriminate Eb. }
+  apply Z.eqb_eq, zlen_zero in Eb.
+  destruct (ud_bytesdec d) eqn:Ebd.
+  { split; [|exact H]. unfold urem, utailb. rewrite Eb, Ebd. reflexivity. }
+  destruct (ud_script d) as [|[data err] rest] eqn:Es.
+  { split; [|reflexivity]. unfold urem, utailb. rewrite Eb, Ebd, Es. reflexivity. }
+  cbv zeta. pose proof (uscript_okb_tail _ _ H) as Ht.
+  destruct (uscript_okb_head _ _ _ H) as [->|[-> ->]].
+  - change (negb (0 =? 0)) with false. rewrite andb_false_r. cbn [ud_p ud_script].
+    split; [reflexivity|]. split; [|split; [exact Ht|left; cbn [length]; lia]].
+    unfold urem, utailb. cbn [ud_buf ud_script ud_bytesdec]. rewrite Eb, Ebd, Es. reflexivity.
+  - destruct ((zlen data =? 0) && negb (ueEOF =? 0)) eqn:Ec.
+    + change (ueEOF =? ueEOF) with true. cbv iota. split; [|reflexivity].
+      apply andb_true_iff in Ec. destruct Ec as [Ec _]. apply Z.eqb_eq, zlen_zero in Ec. subst data.
+      unfold urem, utailb. rewrite Eb, Ebd, Es. reflexivity.
+    + cbn [ud_p ud_script]. split; [reflexivity|]. split; [|split; [reflexivity|left; cbn [length]; lia]].
+      unfold urem, utailb. cbn [ud_buf ud_script ud_bytesdec]. rewrite Eb, Ebd, Es. cbn [map fst concat app].
+      rewrite app_nil_r. reflexivity.
+Qed.
+
+(* ---------- the inner loop: invariant, and how it stops ---------- *)
+Lemma ufeed_until_post : forall n p s b p1 s1 rest d,
+  Inv p -> ufeed_until n p s b = Ok (UR p1 s1 rest d unilE) ->
+  Inv p1 /\ (d = true -> u_t (up_cur p1) = tNext) /\ (d = false -> rest = [] /\ cstep p1 = false).
+Proof.
+  induction n as [|n IH]; intros p s b p1 s1 rest d HI H; [discriminate|].
+  cbn [ufeed_until] in H.
+  destruct (uexec_step p s b) as [pa sa ra da ea|w] eqn:E; [|discriminate].
+  destruct (da || negb (unil ea)) eqn:E1.
+  - inversion H; subst. destruct (exec_post _ _ _ _ _ _ _ HI E) as [HI1 Hd].
+    split; [exact HI1|]. split; [exact Hd|]. intros ->. rewrite unil_nil in E1. discriminate E1.
+  - apply orb_false_iff in E1. destruct E1 as [-> En]. apply negb_false_iff, unil_true in En. subst ea.
+    destruct (exec_post _ _ _ _ _ _ _ HI E) as [HI1 _].
+    destruct ((zlen ra =? 0) && negb (can_step_without_input pa)) eqn:Ec.
+    + inversion H; subst. split; [exact HI1|]. split; [discriminate|]. intros _.
+      apply andb_true_iff in Ec. destruct Ec as [Ec1 Ec2]. apply Z.eqb_eq, zlen_zero in Ec1.
+      apply negb_true_iff in Ec2. auto.
+    + eapply IH; eauto.
+Qed.
+
+(* ---------- (a) Next returns, provided the parser's inner loop does ---------- *)
+(* Totality of ufeed_until (no panic, enough fuel) is the subject of the UBJSON
+   safety proof and is not available here: it is a premise.  What is proved is
+   that the decoder adds no failure of its own - in particular an empty read
+   (0, nil) is never fed to the parser, which would index b[0]. *)
+Definition ufu_total : Prop :=
+  forall p s b, Inv p -> b <> [] ->
+  exists p1 s1 rest d e, ufeed_until (ufeed_fuel p b) p s b = Ok (UR p1 s1 rest d e).
+
+Definition umeasure (d : udecoder) : nat :=
+  (2 * length (ud_script d) + match ud_buf d with [] => 0 | _ => 1 end)%nat.
+
+Theorem C18_ubj_next_total_partial : ufu_total -> forall fuel d s,
+  Inv (ud_p d) -> (umeasure d < fuel)%nat ->
+  exists d' s' e, udec_next fuel d s = Ok (d', s', e) /\ (e = unilE -> Inv (ud_p d')) /\
+                  (umeasure d' <= umeasure d)%nat.
+Proof.
+  intros Htot. induction fuel as [|f IH]; intros d s HI Hm; [lia|].
+  rewrite udec_next_S. unfold udec_fill.
+  assert (Body : forall d1, Inv (ud_p d1) -> ud_buf d1 <> [] -> (umeasure d1 <= umeasure d)%nat ->
+            exists d' s' e, udec_body f d1 s = Ok (d', s', e) /\ (e = unilE -> Inv (ud_p d')) /\
+                            (umeasure d' <= umeasure d)%nat).
+  { intros d1 HI1 Hb Hm1. unfold udec_body.
+    destruct (Htot (ud_p d1) s (ud_buf d1) HI1 Hb) as (p1 & s1 & rest & dn & err & Heq). rewrite Heq. cbv zeta.
+    destruct (unil err) eqn:Ee; cbn [negb].
+    - apply unil_true' in Ee. subst err.
+      destruct (ufeed_until_post _ _ _ _ _ _ _ _ HI1 Heq) as (HI2 & _ & Hnd).
+      destruct dn.
+      + eexists _, _, _. split; [reflexivity|]. cbn [ud_p]. split; [auto|].
+        unfold umeasure in *. cbn [ud_script ud_buf]. destruct rest; destruct (ud_buf d1); try congruence; lia.
+      + destruct (Hnd eq_refl) as [-> _].
+        destruct (IH {| ud_p := p1; ud_buf := []; ud_script := ud_script d1; ud_bytesdec := ud_bytesdec d1 |} s1)
+          as (d' & s' & e & H1 & H2 & H3); [exact HI2| |].
+        { unfold umeasure in *. cbn [ud_script ud_buf] in *. destruct (ud_buf d1); [congruence|lia]. }
+        exists d', s', e. split; [exact H1|]. split; [exact H2|].
+        unfold umeasure in *. cbn [ud_script ud_buf] in *. destruct (ud_buf d1); lia.
+    - eexists _, _, _. split; [reflexivity|]. split; [intros ->; discriminate Ee|].
+      unfold umeasure in *. cbn [ud_script ud_buf]. lia. }
+  assert (Fin : forall sc, (length sc <= length (ud_script d))%nat ->
+            exists d' s' e, Ok (udec_fin d sc s) = Ok (d', s', e) /\ (e = unilE -> Inv (ud_p d')) /\
+                            (umeasure d' <= umeasure d)%nat).
+  { intros sc Hsc. unfold udec_fin. destruct (ufin (ud_p d) s) as [[p1 s1] e] eqn:Ef.
+    eexists _, _, _. split; [reflexivity|]. split.
+    - intros E. destruct (unil e) eqn:Ee; [discriminate E|]. subst e. discriminate Ee.
+    - unfold umeasure. cbn [ud_script ud_buf]. lia. }
+  destruct (zlen (ud_buf d) =? 0) eqn:Eb.
+  - assert (Hb : ud_buf d = []) by (apply zlen_zero, Z.eqb_eq; exact Eb).
+    destruct (ud_bytesdec d); [apply Fin; lia|].
+    destruct (ud_script d) as [|[data err] rest] eqn:Es; [apply Fin; cbn; lia|].
+    cbv zeta.
+    destruct ((zlen data =? 0) && negb (err =? 0)) eqn:Ec.
+    + destruct (err =? ueEOF); [apply Fin; cbn [length]; lia|].
+      eexists _, _, _. split; [reflexivity|]. split.
+      * intros ->. cbn [ud_p]. exact HI.
+      * unfold umeasure. cbn [ud_script ud_buf]. rewrite Es, Hb. cbn [length].
+        apply andb_true_iff in Ec. destruct Ec as [Ec _]. apply Z.eqb_eq, zlen_zero in Ec. subst data. lia.
+    + cbn [ud_buf]. destruct (zlen data =? 0) eqn:Ed.
+      * apply Z.eqb_eq, zlen_zero in Ed. subst data.
+        destruct (IH {| ud_p := ud_p d; ud_buf := []; ud_script := rest; ud_bytesdec := false |} s)
+          as (d' & s' & e & H1 & H2 & H3); [exact HI| |].
+        { unfold umeasure in *. cbn [ud_script ud_buf] in *. rewrite Es, Hb in Hm. cbn [length] in Hm. lia. }
+        exists d', s', e. split; [exact H1|]. split; [exact H2|].
+        unfold umeasure in *. cbn [ud_script ud_buf] in *. rewrite Es, Hb. cbn [length]. lia.
+      * apply Body; cbn [ud_p ud_buf]; [exact HI|intros ->; discriminate Ed|].
+        unfold umeasure. cbn [ud_script ud_buf]. rewrite Es, Hb. cbn [length]. destruct data; lia.
+  - rewrite Eb. apply Body; [exact HI|intros E; rewrite E in Eb; discriminate Eb|lia].
+Qed.
+
+(* ---------- (b) what a nil verdict means ---------- *)
+Lemma stk_top_empty : forall c l, stk (c :: l) -> u_t c = tNext -> l = [].
+Proof.
+  intros c l H Ht. destruct (stk_cases _ _ H) as [[_ E]|[[Hm _] _]]; [exact E|]. contradiction.
+Qed.
+
+(* a Next that returns nil stopped exactly when the state stack became empty again;
+   nothing is buffered inside the parser, no error is latched *)
+Theorem C18_ubj_next_value_partial : forall fuel d s d' s',
+  Inv (ud_p d) -> uscript_okb (ud_script d) = true ->
+  udec_next fuel d s = Ok (d', s', unilE) ->
+  Inv (ud_p d') /\ u_t (up_cur (ud_p d')) = tNext /\ up_stack (ud_p d') = [] /\
+  up_buf (ud_p d') = [] /\ up_marker (ud_p d') = 0 /\ uscript_okb (ud_script d') = true.
+Proof.
+  induction fuel as [|f IH]; intros d s d' s' HI Hsc H; [discriminate|].
+  rewrite udec_next_S in H. pose proof (udec_fill_spec d Hsc) as Hf.
+  destruct (udec_fill d) as [d1|sc|d1 e]; [| |contradiction].
+  - destruct Hf as (Hp & _ & Ho & _).
+    assert (HI1 : Inv (ud_p d1)) by (rewrite Hp; exact HI).
+    destruct (zlen (ud_buf d1) =? 0); [eapply IH; eauto|].
+    unfold udec_body in H.
+    destruct (ufeed_until _ _ _ _) as [[p1 s1 rest dn err|w]| | |] eqn:Hfu; try discriminate.
+    destruct (unil err) eqn:Ee; cbn [negb] in H; [|inversion H; subst; discriminate Ee].
+    apply unil_true' in Ee. subst err.
+    destruct (ufeed_until_post _ _ _ _ _ _ _ _ HI1 Hfu) as (HI2 & Hd & _).
+    destruct dn; [|eapply IH; [| |exact H]; cbn [ud_p ud_script]; auto].
+    inversion H; subst d' s'. cbn [ud_p ud_script]. specialize (Hd eq_refl).
+    split; [exact HI2|]. split; [exact Hd|].
+    destruct (Inv_top_clean _ HI2 Hd) as [C1 C2].
+    destruct HI2 as [_ [Hfail|((Hs & _) & _)]]; [rewrite Hd in Hfail; discriminate|].
+    split; [eapply stk_top_empty; eauto|]. auto.
+  - unfold udec_fin in H. destruct (ufin (ud_p d) s) as [[p1 s1] e0]. inversion H as [[Hd' Hs' He]].
+    destruct (unil e0) eqn:E0; [discriminate He|subst e0; discriminate E0].
+Qed.
+
+(* ---------- (c) script independence of the whole run ---------- *)
+(* One call of the inner loop on the buffer a, seen as a prefix of the feed of
+   a ++ T (T = everything that is still to come). *)
+Lemma fu_merge : forall n p s a p1 s1 rest d e,
+  ufeed_until n p s a = Ok (UR p1 s1 rest d e) ->
+  Inv p -> a <> [] \/ cstep p = true -> forall T, T <> [] ->
+  (e <> unilE -> exists p1', R p s (a ++ T) (p1', s1, e)) /\
+  (e = unilE -> forall r, R p1 s1 (rest ++ T) r -> exists r', R p s (a ++ T) r' /\ sim r r').
+Proof.
+  induction n as [|n IH]; intros p s a p1 s1 rest d e H HI Ha T HT; [discriminate|].
+  cbn [ufeed_until] in H.
+  destruct (uexec_step p s a) as [pa sa ra da ea|w] eqn:E; [|discriminate].
+  pose proof (exec_dich p s a T HI Ha HT) as D. rewrite E in D. cbn [Dich] in D.
+  (* the loop stops after this step with a nil error *)
+  assert (Stop : ea = unilE -> forall r, R pa sa (ra ++ T) r -> (ra <> [] -> da = true) ->
+            exists r', R p s (a ++ T) r' /\ sim r r').
+  { intros -> r HR Hra.
+    assert (HI1 : Inv pa) by (eapply exec_post; eauto).
+    destruct D as [D|(-> & _ & _ & D)].
+    - destruct (uexec_step p s (a ++ T)) as [p2 s2 rest2 d2 e2|w] eqn:Wh; cbn [ext] in D; [|contradiction].
+      destruct D as (<- & <- & D). destruct (D eq_refl) as (<- & ->).
+      exists r. split; [|apply sim_refl]. eapply R_more; [exact Wh| |exact HR].
+      destruct ra; [exact HT|discriminate].
+    - cbn [app] in HR. eapply R_ext_nil; [exact HI1|exact HI|exact (D 2%nat)|exact HR]. }
+  destruct (da || negb (unil ea)) eqn:E1.
+  - inversion H; subst; clear H. split.
+    + intros He. destruct D as [D|(_ & D & _)]; [|congruence].
+      destruct (uexec_step p s (a ++ T)) as [p2 s2 rest2 d2 e2|w] eqn:Wh; cbn [ext] in D; [|contradiction].
+      destruct D as (<- & <- & _). exists p2. eapply R_err; eauto.
+    + intros -> r HR. apply (Stop eq_refl r HR). intros _. rewrite unil_nil in E1.
+      destruct d; [reflexivity|discriminate E1].
+  - apply orb_false_iff in E1. destruct E1 as [-> En]. apply negb_false_iff, unil_true in En. subst ea.
+    destruct ((zlen ra =? 0) && negb (can_step_without_input pa)) eqn:Ec.
+    + inversion H; subst; clear H. split; [congruence|]. intros _ r HR.
+      apply (Stop eq_refl r HR). intros Hr. exfalso.
+      apply andb_true_iff in Ec. destruct Ec as [Ec _]. apply Z.eqb_eq, zlen_zero in Ec. congruence.
+    + assert (HI1 : Inv pa) by (eapply exec_post; eauto).
+      assert (Ha1 : ra <> [] \/ cstep pa = true).
+      { apply andb_false_iff in Ec. destruct Ec as [Ec|Ec].
+        - left. intros ->. discriminate Ec.
+        - right. apply negb_false_iff in Ec. exact Ec. }
+      destruct (IH _ _ _ _ _ _ _ _ H HI1 Ha1 T HT) as [IH1 IH2].
+      destruct D as [D|(D1 & _ & D2 & _)]; [|destruct Ha1; congruence].
+      destruct (uexec_step p s (a ++ T)) as [p2 s2 rest2 d2 e2|w] eqn:Wh; cbn [ext] in D; [|contradiction].
+      destruct D as (<- & <- & D). destruct (D eq_refl) as (<- & ->).
+      assert (Hrt : ra ++ T <> []) by (destruct ra; [exact HT|discriminate]).
+      split.
+      * intros He. destruct (IH1 He) as [p1' R1]. exists p1'. eapply R_more; eauto.
+      * intros He r HR. destruct (IH2 He r HR) as (r' & R' & S'). exists r'. split; [|exact S'].
+        eapply R_more; eauto.
+Qed.
+
+(* the same for Feed, including the case that nothing follows *)
+Lemma fu_transfer : forall n p s a p1 s1 rest d,
+  ufeed_until n p s a = Ok (UR p1 s1 rest d unilE) -> Inv p -> a <> [] ->
+  forall T r, Feed p1 s1 (rest ++ T) r -> exists r', Feed p s (a ++ T) r' /\ sim r r'.
+Proof.
+  intros n p s a p1 s1 rest d H HI Ha T r F.
+  destruct T as [|t T].
+  - rewrite app_nil_r in *. exists r. split; [|apply sim_refl]. right. split; [exact Ha|].
+    eapply feed_until_sound; [exact H|]. destruct F as [[-> ->]|[Hr HR]].
+    + right; left. auto.
+    + right; right. auto.
+  - assert (HT : t :: T <> []) by discriminate.
+    destruct F as [[Hn _]|[_ HR]]; [destruct rest; discriminate|].
+    destruct (fu_merge _ _ _ _ _ _ _ _ _ H HI (or_introl Ha) _ HT) as [_ M].
+    destruct (M eq_refl r HR) as (r' & R' & S'). exists r'. split; [|exact S'].
+    right. split; [apply app_nonnil; exact Ha|exact R'].
+Qed.
+
+Lemma fu_err : forall n p s a p1 s1 rest d e,
+  ufeed_until n p s a = Ok (UR p1 s1 rest d e) -> e <> unilE -> Inv p -> a <> [] ->
+  forall T, exists p1', Feed p s (a ++ T) (p1', s1, e).
+Proof.
+  intros n p s a p1 s1 rest d e H He HI Ha T.
+  destruct T as [|t T].
+  - rewrite app_nil_r. exists p1. right. split; [exact Ha|].
+    eapply feed_until_sound; [exact H|]. left. auto.
+  - destruct (fu_merge _ _ _ _ _ _ _ _ _ H HI (or_introl Ha) (t :: T) ltac:(discriminate)) as [M _].
+    destruct (M He) as [p1' R1]. exists p1'. right. split; [apply app_nonnil; exact Ha|exact R1].
+Qed.
+
+(* what the decoder reports in total on the stream T: all events of the feed of T,
+   then finalize; the last verdict is the error, or io.EOF after a clean end *)
+Definition dfin_obs (pm : uparser) (sm : sink) (em : Z) : sink * Z :=
+  if unil em then (snd (fst (ufin pm sm)), if unil (snd (ufin pm sm)) then ueEOF else snd (ufin pm sm))
+  else (sm, em).
+Definition WholeD (p : uparser) (s : sink) (T : bytes) (o : sink * Z) : Prop :=
+  exists pm sm em, Feed p s T (pm, sm, em) /\ o = dfin_obs pm sm em.
+
+Lemma WholeD_det : forall p s T o o', WholeD p s T o -> WholeD p s T o' -> o = o'.
+Proof.
+  intros p s T o o' (pm & sm & em & F & ->) (pm' & sm' & em' & F' & ->).
+  pose proof (Feed_det _ _ _ _ _ F F') as E. inversion E; subst. reflexivity.
+Qed.
+
+Lemma WholeD_sim : forall p s T r r', Feed p s T r' -> sim r r' ->
+  WholeD p s T (dfin_obs (fst (fst r)) (snd (fst r)) (snd r)).
+Proof.
+  intros p s T [[pm sm] em] [[pm' sm'] em'] F (<- & <- & S). cbn [fst snd].
+  exists pm', sm, em. split; [exact F|]. unfold dfin_obs.
+  destruct (unil em) eqn:E; [|reflexivity]. apply unil_true' in E. rewrite (S E). reflexivity.
+Qed.
+
+(* one Next: either it ends the run with a non-nil verdict, which is then the verdict
+   of the whole stream; or it returns nil and the rest of the run is the run of the
+   rest of the stream *)
+Lemma udec_next_prefix : forall fuel d s d' s' e,
+  Inv (ud_p d) -> uscript_okb (ud_script d) = true ->
+  udec_next fuel d s = Ok (d', s', e) ->
+  (e <> unilE -> WholeD (ud_p d) s (urem d) (s', e)) /\
+  (e = unilE -> Inv (ud_p d') /\ uscript_okb (ud_script d') = true /\
+                forall o, WholeD (ud_p d') s' (urem d') o -> WholeD (ud_p d) s (urem d) o).
+Proof.
+  induction fuel as [|f IH]; intros d s d' s' e HI Hsc H; [discriminate|].
+  rewrite udec_next_S in H. pose proof (udec_fill_spec d Hsc) as Hf.
+  destruct (udec_fill d) as [d1|sc|d1 e1]; [| |contradiction].
+  - destruct Hf as (Hp & Hr & Ho & _). rewrite <- Hr, <- Hp.
+    assert (HI1 : Inv (ud_p d1)) by (rewrite Hp; exact HI).
+    destruct (zlen (ud_buf d1) =? 0) eqn:Eb; [eapply IH; eauto|].
+    assert (Hb : ud_buf d1 <> []) by (intros E; rewrite E in Eb; discriminate Eb).
+    unfold udec_body in H.
+    destruct (ufeed_until _ _ _ _) as [[p1 s1 rest dn err|w]| | |] eqn:Hfu; try discriminate.
+    destruct (unil err) eqn:Ee; cbn [negb] in H.
+    + apply unil_true' in Ee. subst err.
+      destruct (ufeed_until_post _ _ _ _ _ _ _ _ HI1 Hfu) as (HI2 & _ & Hnd).
+      (* what follows d2 is transferred to d1 *)
+      assert (Tr : forall o, WholeD p1 s1 (rest ++ utailb d1) o -> WholeD (ud_p d1) s (urem d1) o).
+      { intros o (pm & sm & em & F & ->).
+        destruct (fu_transfer _ _ _ _ _ _ _ _ Hfu HI1 Hb _ _ F) as (r' & F' & S').
+        exact (WholeD_sim _ _ _ (pm, sm, em) r' F' S'). }
+      destruct dn.
+      * inversion H; subst d' s' e. split; [congruence|]. intros _. cbn [ud_p ud_script].
+        split; [exact HI2|]. split; [exact Ho|]. exact Tr.
+      * match type of H with udec_next f ?d2 _ = _ =>
+          destruct (IH d2 _ _ _ _ HI2 Ho H) as [A B] end.
+        cbn [ud_p] in A, B. split.
+        -- intros He. apply Tr. exact (A He).
+        -- intros He. destruct (B He) as (B1 & B2 & B3). split; [exact B1|]. split; [exact B2|].
+           intros o Ho'. apply Tr. apply B3. exact Ho'.
+    + inversion H; subst d' s' e. split; [|intros ->; discriminate Ee]. intros He.
+      destruct (fu_err _ _ _ _ _ _ _ _ _ Hfu He HI1 Hb (utailb d1)) as (p1' & F).
+      exists p1', s1, err. split; [exact F|]. unfold dfin_obs. rewrite Ee. reflexivity.
+  - destruct Hf as [Hr Ho]. unfold udec_fin in H.
+    destruct (ufin (ud_p d) s) as [[p1 s1] e0] eqn:Ef. inversion H; subst d' s' e. split.
+    + intros _. rewrite Hr. exists (ud_p d), s, unilE. split; [left; auto|].
+      unfold dfin_obs. rewrite unil_nil, Ef. reflexivity.
+    + intros E. destruct (unil e0) eqn:E0; [discriminate E|]. subst e0. discriminate E0.
+Qed.
+
+(* the whole run: Next until the first non-nil verdict; result: the visitor and that verdict *)
+Fixpoint udrain (k fuel : nat) (d : udecoder) (s : sink) : res (sink * Z) :=
+  match k with
+  | O => OutOfFuel
+  | S k' =>
+      match udec_next fuel d s with
+      | Ok (d', s', e) => if unil e then udrain k' fuel d' s' else Ok (s', e)
+      | Err e => Err e | Panic w => Panic w | OutOfFuel => OutOfFuel
+      end
+  end.
+
+Lemma udrain_whole : forall k fuel d s o,
+  Inv (ud_p d) -> uscript_okb (ud_script d) = true ->
+  udrain k fuel d s = Ok o -> WholeD (ud_p d) s (urem d) o.
+Proof.
+  induction k as [|k IH]; intros fuel d s o HI Hsc H; [discriminate|].
+  cbn [udrain] in H.
+  destruct (udec_next fuel d s) as [[[d' s'] e]| | |] eqn:E; try discriminate.
+  destruct (udec_next_prefix _ _ _ _ _ _ HI Hsc E) as [A B].
+  destruct (unil e) eqn:Ee.
+  - apply unil_true' in Ee. destruct (B Ee) as (B1 & B2 & B3). apply B3. eapply IH; eauto.
+  - inversion H; subst. apply A. intros ->. discriminate Ee.
+Qed.
+
+(* C18 (c), whole-run form: the complete event sequence delivered by a run of Next
+   calls and its final verdict depend only on the parser state and on the bytes that
+   are still to come - not on how they are split into the buffer and the reads of a
+   well-behaved reader, on empty reads, or on where io.EOF is reported.  (Which
+   events are delivered by which call is not covered: see the file header.) *)
+Theorem C18_ubj_run_script_independent_partial : forall k1 k2 f1 f2 d1 d2 s o1 o2,
+  Inv (ud_p d1) -> ud_p d1 = ud_p d2 -> urem d1 = urem d2 ->
+  uscript_okb (ud_script d1) = true -> uscript_okb (ud_script d2) = true ->
+  udrain k1 f1 d1 s = Ok o1 -> udrain k2 f2 d2 s = Ok o2 -> o1 = o2.
+Proof.
+  intros k1 k2 f1 f2 d1 d2 s o1 o2 HI Hp Hr Hs1 Hs2 H1 H2.
+  apply (udrain_whole _ _ _ _ _ HI Hs1) in H1.
+  assert (HI2 : Inv (ud_p d2)) by (rewrite <- Hp; exact HI).
+  apply (udrain_whole _ _ _ _ _ HI2 Hs2) in H2.
+  rewrite <- Hp, <- Hr in H2. eapply WholeD_det; eauto.
+Qed.
+
+Definition ureader_dec (sc : list (bytes * Z)) : udecoder :=
+  {| ud_p := uparser0; ud_buf := []; ud_script := sc; ud_bytesdec := false |}.
+Definition ubytes_dec (b : bytes) : udecoder :=
+  {| ud_p := uparser0; ud_buf := b; ud_script := []; ud_bytesdec := true |}.
+
+Corollary C18_ubj_reader_as_bytes_partial : forall k1 k2 f1 f2 sc s o1 o2,
+  uscript_okb sc = true ->
+  udrain k1 f1 (ureader_dec sc) s = Ok o1 ->
+  udrain k2 f2 (ubytes_dec (concat (map fst sc))) s = Ok o2 -> o1 = o2.
+Proof.
+  intros k1 k2 f1 f2 sc s o1 o2 Hsc H1 H2.
+  eapply (C18_ubj_run_script_independent_partial k1 k2 f1 f2 (ureader_dec sc) (ubytes_dec (concat (map fst sc))));
+    try eassumption; try reflexivity.
+  - exact Inv0.
+  - unfold urem, utailb, ureader_dec, ubytes_dec. cbn [ud_buf ud_script ud_bytesdec app]. rewrite app_nil_r. reflexivity.
+Qed.
+
+Corollary C18_ubj_scripts_same_data_partial : forall k1 k2 f1 f2 sc1 sc2 s o1 o2,
+  uscript_okb sc1 = true -> uscript_okb sc2 = true ->
+  concat (map fst sc1) = concat (map fst sc2) ->
+  udrain k1 f1 (ureader_dec sc1) s = Ok o1 -> udrain k2 f2 (ureader_dec sc2) s = Ok o2 -> o1 = o2.
+Proof.
+  intros k1 k2 f1 f2 sc1 sc2 s o1 o2 H1 H2 Hc R1 R2.
+  eapply (C18_ubj_run_script_independent_partial k1 k2 f1 f2 (ureader_dec sc1) (ureader_dec sc2));
+    try eassumption; try reflexivity.
+  exact Inv0.
+Qed.
+
 Print Assumptions C16_ubj_parse_prompt.
 Print Assumptions C16_ubj_parse_fail_spec.
 Print Assumptions C16_ubj_parse_prefix.
 Print Assumptions C16_ubj_run_parse_prompt.
 Print Assumptions C16_ubj_run_parse_fail_spec.
 Print Assumptions C16_ubj_run_parse_prefix.
+Print Assumptions C17_ubj_parse_top.
+Print Assumptions C17_ubj_parse_top_any.
+Print Assumptions C17_ubj_writes_top.
+Print Assumptions C17_ubj_run_parse_top.
+Print Assumptions C17_ubj_run_chunks_top.
+Print Assumptions C17_ubj_accept_reset.
+Print Assumptions C17_ubj_accept_stacks.
+Print Assumptions C18_ubj_next_total_partial.
+Print Assumptions C18_ubj_next_value_partial.
+Print Assumptions C18_ubj_run_script_independent_partial.
+Print Assumptions C18_ubj_reader_as_bytes_partial.
+Print Assumptions C18_ubj_scripts_same_data_partial.
